@@ -3,6 +3,7 @@
 -/
 import GeonumModel.Lemmas.AngleStep
 import GeonumModel.Spec.RealWitness
+import GeonumModel.Lemmas.Exact
 
 set_option linter.unusedSectionVars false
 set_option linter.unusedVariables false
@@ -143,8 +144,32 @@ theorem scale_spec {g : Geonum F} {f : F} (hm : Fin g.mag) (hf : Fin f) (ha : g.
 
 end S
 
-/-! PARTIAL: associativity of the product (magnitudes: `mul_assoc` up to two roundings; angles: C03) is not restated here;
-    the rounding of `powf` (libm) is not bounded. -/
+/-! ### E-tier -/
+section E
+open GeonumModel.Exact
+
+/-- (E) multiplication is associative: magnitudes exactly, totals of the angles to within two tolerances each way -/
+theorem mul_assoc_real {a b c : Geonum ℝ} (ha : a.angle.Inv) (hb : b.angle.Inv) (hc : c.angle.Inv) :
+    ((a.mul b).mul c).mag = (a.mul (b.mul c)).mag ∧
+    |T ((a.mul b).mul c).angle - T (a.mul (b.mul c)).angle| < 4 * (1 / 10 ^ 10 + 1 / 10 ^ 15) := by
+  refine ⟨mul_assoc a.mag b.mag c.mag, ?_⟩
+  obtain ⟨δ1, h1, e1⟩ := add_total_real ha hb
+  obtain ⟨δ2, h2, e2⟩ := add_total_real (geometricAdd_inv ha hb) hc
+  obtain ⟨δ3, h3, e3⟩ := add_total_real hb hc
+  obtain ⟨δ4, h4, e4⟩ := add_total_real ha (geometricAdd_inv hb hc)
+  show |T ((a.angle.geometricAdd b.angle).geometricAdd c.angle) - T (a.angle.geometricAdd (b.angle.geometricAdd c.angle))| < _
+  rw [e2, e1, e4, e3]
+  rw [abs_lt] at *
+  constructor <;> linarith [h1.1, h1.2, h2.1, h2.2, h3.1, h3.2, h4.1, h4.2]
+
+/-- (E) the product multiplies magnitudes and adds totals: `T(ab) = T a + T b + δ` -/
+theorem mul_total_real {a b : Geonum ℝ} (ha : a.angle.Inv) (hb : b.angle.Inv) :
+    (a.mul b).mag = a.mag * b.mag ∧ ∃ δ : ℝ, |δ| < 1 / 10 ^ 10 + 1 / 10 ^ 15 ∧ T (a.mul b).angle = T a.angle + T b.angle + δ :=
+  ⟨rfl, add_total_real ha hb⟩
+
+end E
+
+/-! PARTIAL: the rounding of `powf` (libm) is not bounded. -/
 
 example {F : Type} [FloatSpec F] : (Geonum.new (one : F) zero one).angle.Inv :=
   Angle.Equiv.inv (Angle.Equiv.symm new_zero_one) (inv_zero 0)
